@@ -137,6 +137,11 @@ pub fn harness_natives(builder: &mut GlobalsBuilder) {
         Ok(eval.module().get(name).unwrap_or(Value::new_none()))
     }
 
+    /// The hash the dict implementation uses for `v` (for strings: the lazily cached cell).
+    fn key_hash<'v>(v: Value<'v>) -> anyhow::Result<i64> {
+        Ok(v.get_hashed().map_err(|e| e.into_anyhow())?.hash().get() as i64)
+    }
+
     /// Total tick count so far.
     fn tick_count(eval: &mut Evaluator) -> anyhow::Result<i32> {
         Ok(eval.get_total_tick_count() as i32)
